@@ -18,7 +18,9 @@ Backends == {"atlas", "cms_aod", "cms_miniaod"}
 \* file's directory; nested_rev: the other way round - none of these share one directory
 FilesCfg == {"one", "two_same_dir", "three_same_dir", "two_dirs", "nested_dir", "nested_rev", "one_missing", "none"}
 NotOneDir == {"two_dirs", "nested_dir", "nested_rev"}
-Containers == {"ok_result", "ok_noresult", "fail_at_0", "fail_at_2"}
+\* real_runner: the container is the namespace sandbox of the C16 check - the package's own runner.sh runs, unmodified, on
+\* the volumes and with the command docker.run was given (machines M4 and M5 composed end to end)
+Containers == {"ok_result", "ok_noresult", "fail_at_0", "fail_at_2", "real_runner"}
 
 \* prior: what the SAME dataset object executed before this query - nothing, a query carrying docker metadata
 \* (another image) that ran, or one whose translation failed.  Expected() does not mention it: that is the property.
